@@ -210,4 +210,313 @@ theorem rightShift_approx (a : Decimal) (h : WF a) (hnz : NZ a) (hnd : 1 ≤ a.n
       have h2k : (2 : ℚ) ^ k ≠ 0 := by positivity
       field_simp
 
+/-! ## left shift -/
+
+/-- putting one digit down at `w - 1`, any run; `t` is the value of the digits dropped so far (positions 800 and beyond) -/
+theorem put_approx (d : Array UInt8) (w e W rem t : Nat) (tr : Bool) (hsz : d.size = 800) (hw1 : 1 ≤ w) (hwe : w + e = W)
+    (hrem : rem ≤ 9) (hok : OkFrom d w (min W 800)) (ht : t < 10 ^ (min e (W - min W 800))) :
+    ∃ d' tr' t', lsPut d ((w : ℤ) - 1) rem tr = some (d', tr') ∧ d'.size = 800 ∧ (∀ i, i < w - 1 → d'[i]! = d[i]!) ∧
+      OkFrom d' (w - 1) (min W 800) ∧ t' < 10 ^ (min (e + 1) (W - min W 800)) ∧
+      seg d' (w - 1) (min W 800 - (w - 1)) * 10 ^ (W - min W 800) + t' =
+        rem * 10 ^ e + seg d w (min W 800 - w) * 10 ^ (W - min W 800) + t := by
+  rw [lsPut_nat d w rem tr hw1]
+  by_cases hfit : w - 1 < d.size
+  · rw [if_pos hfit]
+    have hw800 : w - 1 < 800 := by omega
+    have hc : min W 800 - (w - 1) = (min W 800 - w) + 1 := by omega
+    refine ⟨_, _, t, rfl, by rw [size_set!]; exact hsz, ?_, ?_, ?_, ?_⟩
+    · intro i hi
+      rw [getElem!_set! d (w - 1) i _ hfit, if_neg (by omega)]
+    · intro i h1 h2
+      by_cases hiw : i = w - 1
+      · subst hiw; exact byte_set_self d _ _ hfit hrem
+      · rw [getElem!_set! d (w - 1) i _ hfit, if_neg hiw]; exact hok i (by omega) h2
+    · exact Nat.lt_of_lt_of_le ht (Nat.pow_le_pow_right (by norm_num) (by omega))
+    · rw [hc, seg_cons, dig_set_self d (w - 1) rem hfit hrem]
+      have hw' : w - 1 + 1 = w := by omega
+      rw [hw', seg_set_out d (w - 1) _ hfit _ w (by omega)]
+      have hexp : (min W 800 - w) + (W - min W 800) = e := by omega
+      rw [Nat.add_mul, Nat.mul_assoc, ← Nat.pow_add, hexp]
+  · rw [if_neg hfit]
+    have hw800 : 800 ≤ w - 1 := by omega
+    have hc1 : min W 800 - (w - 1) = 0 := by omega
+    have hc2 : min W 800 - w = 0 := by omega
+    refine ⟨_, _, rem * 10 ^ e + t, rfl, hsz, fun _ _ => rfl, ?_, ?_, ?_⟩
+    · intro i h1 h2; omega
+    · have he1 : min (e + 1) (W - min W 800) = e + 1 := by omega
+      have he0 : min e (W - min W 800) = e := by omega
+      rw [he0] at ht
+      rw [he1, Nat.pow_succ]
+      have : rem * 10 ^ e ≤ 9 * 10 ^ e := Nat.mul_le_mul_right _ hrem
+      omega
+    · rw [hc1, hc2]; simp [seg]
+
+/-- the first loop of `leftShift`, any run -/
+theorem lsMain_approx (k nd delta : Nat) (d0 : Array UInt8) (h0 : DigitsOK d0 nd) :
+    ∀ (r n t : Nat) (d : Array UInt8) (tr : Bool), r ≤ nd → d.size = 800 → (∀ i, i < r → d[i]! = d0[i]!) → n < 2 ^ k →
+      OkFrom d (delta + r) (min (nd + delta) 800) → t < 10 ^ (min (nd - r) (nd + delta - min (nd + delta) 800)) →
+      (val d0 r * 2 ^ k + n) * 10 ^ (nd - r) +
+          seg d (delta + r) (min (nd + delta) 800 - (delta + r)) * 10 ^ (nd + delta - min (nd + delta) 800) + t = val d0 nd * 2 ^ k →
+      ∃ n' d' tr' t', lsMain k r ((delta + r : ℕ) : ℤ) n d tr = some (((delta : ℕ) : ℤ), n', d', tr') ∧ d'.size = 800 ∧ n' < 2 ^ k ∧
+        OkFrom d' delta (min (nd + delta) 800) ∧ t' < 10 ^ (min nd (nd + delta - min (nd + delta) 800)) ∧
+        n' * 10 ^ nd + seg d' delta (min (nd + delta) 800 - delta) * 10 ^ (nd + delta - min (nd + delta) 800) + t' = val d0 nd * 2 ^ k := by
+  intro r
+  induction r with
+  | zero =>
+    intro n t d tr _ hsz _ hn hok ht hval
+    refine ⟨n, d, tr, t, by simp [lsMain], hsz, hn, by simpa using hok, by simpa using ht, ?_⟩
+    simpa [val] using hval
+  | succ r ih =>
+    intro n t d tr hr hsz hsame hn hok ht hval
+    simp only [lsMain]
+    have hp : 0 < 2 ^ k := by positivity
+    have hx9 : dig d0 r ≤ 9 := dig_le9 h0 (by omega)
+    have hdr : d[r]! = d0[r]! := hsame r (Nat.lt_succ_self r)
+    rw [hdr, Nat.shiftLeft_eq]
+    have hxdef : d0[r]!.toNat - 48 = dig d0 r := rfl
+    rw [hxdef]
+    generalize hn1 : n + dig d0 r * 2 ^ k = n1
+    have hn1lt : n1 < 10 * 2 ^ k := by
+      have : dig d0 r * 2 ^ k ≤ 9 * 2 ^ k := Nat.mul_le_mul_right _ hx9
+      omega
+    have hrem : n1 - 10 * (n1 / 10) = n1 % 10 := by omega
+    have hrem9 : n1 % 10 ≤ 9 := by omega
+    rw [hrem]
+    obtain ⟨d1, tr1, t1, hput, hsz1, hlow1, hok1, ht1, hval1⟩ := put_approx d (delta + (r + 1)) (nd - (r + 1)) (nd + delta) (n1 % 10) t tr hsz
+      (by omega) (by omega) hrem9 hok ht
+    rw [hput]
+    simp only []
+    have hw' : delta + (r + 1) - 1 = delta + r := by omega
+    rw [hw'] at hlow1 hok1 hval1
+    have hcast : (((delta + (r + 1) : ℕ) : ℤ) - 1) = ((delta + r : ℕ) : ℤ) := by omega
+    rw [hcast]
+    have hquo : n1 / 10 < 2 ^ k := by
+      rw [Nat.div_lt_iff_lt_mul (by norm_num)]; omega
+    have he1 : nd - (r + 1) + 1 = nd - r := by omega
+    rw [he1] at ht1
+    obtain ⟨n', d', tr', t', hres, hsz', hn', hok', ht', hval'⟩ := ih (n1 / 10) t1 d1 tr1 (by omega) hsz1
+      (fun i hi => by rw [hlow1 i (by omega)]; exact hsame i (by omega)) hquo hok1 ht1
+      (by
+        rw [Nat.add_assoc, hval1]
+        have he : nd - r = (nd - (r + 1)) + 1 := by omega
+        rw [he, Nat.pow_succ]
+        have hdm := Nat.div_add_mod n1 10
+        simp only [val] at hval
+        have : (val d0 r * 2 ^ k + n1 / 10) * (10 ^ (nd - (r + 1)) * 10) + (n1 % 10 * 10 ^ (nd - (r + 1)) +
+            seg d (delta + (r + 1)) (min (nd + delta) 800 - (delta + (r + 1))) * 10 ^ (nd + delta - min (nd + delta) 800) + t) =
+            ((val d0 r * 10 + dig d0 r) * 2 ^ k + n) * 10 ^ (nd - (r + 1)) +
+              seg d (delta + (r + 1)) (min (nd + delta) 800 - (delta + (r + 1))) * 10 ^ (nd + delta - min (nd + delta) 800) + t := by
+          have e1 : (val d0 r * 2 ^ k + n1 / 10) * (10 ^ (nd - (r + 1)) * 10) + n1 % 10 * 10 ^ (nd - (r + 1)) =
+              (val d0 r * 2 ^ k * 10 + (10 * (n1 / 10) + n1 % 10)) * 10 ^ (nd - (r + 1)) := by ring
+          rw [← Nat.add_assoc, ← Nat.add_assoc, e1, hdm, ← hn1]; ring
+        rw [this, hval])
+    exact ⟨n', d', tr', t', hres, hsz', hn', hok', ht', hval'⟩
+
+/-- the second loop of `leftShift`, any run -/
+theorem lsExtra_approx (W : Nat) :
+    ∀ (fuel w n e t : Nat) (d : Array UInt8) (tr : Bool), w ≤ fuel → w + e = W → d.size = 800 → n < 10 ^ w → (1 ≤ w → 10 ^ (w - 1) ≤ n) →
+      OkFrom d w (min W 800) → t < 10 ^ (min e (W - min W 800)) →
+      ∃ d' tr' t', lsExtra fuel (w : ℤ) n d tr = some (d', tr') ∧ d'.size = 800 ∧ OkFrom d' 0 (min W 800) ∧
+        t' < 10 ^ (W - min W 800) ∧
+        seg d' 0 (min W 800) * 10 ^ (W - min W 800) + t' = n * 10 ^ e + seg d w (min W 800 - w) * 10 ^ (W - min W 800) + t := by
+  intro fuel
+  induction fuel with
+  | zero =>
+    intro w n e t d tr hf hwe hsz hn _ hok ht
+    have hw0 : w = 0 := by omega
+    subst hw0
+    have hn0 : n = 0 := by simpa using hn
+    subst hn0
+    have he : e = W := by omega
+    subst he
+    refine ⟨d, tr, t, by simp [lsExtra], hsz, hok, ?_, by simp⟩
+    exact Nat.lt_of_lt_of_le ht (Nat.pow_le_pow_right (by norm_num) (by omega))
+  | succ fuel ih =>
+    intro w n e t d tr hf hwe hsz hn hnlo hok ht
+    simp only [lsExtra]
+    by_cases hn0 : n > 0
+    · rw [if_pos hn0]
+      have hw1 : 1 ≤ w := by
+        by_contra hc
+        have : w = 0 := by omega
+        subst this
+        simp at hn; omega
+      have hrem : n - 10 * (n / 10) = n % 10 := by omega
+      have hrem9 : n % 10 ≤ 9 := by omega
+      rw [hrem]
+      obtain ⟨d1, tr1, t1, hput, hsz1, _, hok1, ht1, hval1⟩ := put_approx d w e W (n % 10) t tr hsz hw1 hwe hrem9 hok ht
+      rw [hput]
+      simp only []
+      have hcast : ((w : ℤ) - 1) = ((w - 1 : ℕ) : ℤ) := by omega
+      rw [hcast]
+      have hpw : 10 ^ w = 10 ^ (w - 1) * 10 := by
+        rw [← Nat.pow_succ]; congr 1; omega
+      obtain ⟨d', tr', t', hres, hsz', hok', ht', hval'⟩ := ih (w - 1) (n / 10) (e + 1) t1 d1 tr1 (by omega) (by omega) hsz1
+        (by rw [Nat.div_lt_iff_lt_mul (by norm_num), ← hpw]; exact hn)
+        (by
+          intro hw2
+          have := hnlo hw1
+          have hp2 : 10 ^ (w - 1) = 10 ^ (w - 1 - 1) * 10 := by
+            rw [← Nat.pow_succ]; congr 1; omega
+          rw [Nat.le_div_iff_mul_le (by norm_num), ← hp2]; exact this)
+        hok1 ht1
+      refine ⟨d', tr', t', hres, hsz', hok', ht', ?_⟩
+      rw [hval', Nat.add_assoc, hval1, Nat.pow_succ]
+      have hdm := Nat.div_add_mod n 10
+      have : n / 10 * (10 ^ e * 10) + (n % 10 * 10 ^ e + seg d w (min W 800 - w) * 10 ^ (W - min W 800) + t) =
+          (10 * (n / 10) + n % 10) * 10 ^ e + seg d w (min W 800 - w) * 10 ^ (W - min W 800) + t := by ring
+      rw [this, hdm]
+    · rw [if_neg hn0]
+      have hn00 : n = 0 := by omega
+      subst hn00
+      have hw0 : w = 0 := by
+        by_contra hc
+        have := hnlo (by omega)
+        have : 0 < 10 ^ (w - 1) := by positivity
+        omega
+      subst hw0
+      have he : e = W := by omega
+      subst he
+      refine ⟨d, tr, t, rfl, hsz, hok, ?_, by simp⟩
+      exact Nat.lt_of_lt_of_le ht (Nat.pow_le_pow_right (by norm_num) (by omega))
+
+set_option maxRecDepth 10000 in
+/-- **`leftShift(a, k)`, any run**: the result is `a · 2^k` cut off after 800 digits -/
+theorem leftShift_approx (a : Decimal) (h : WF a) (hnz : NZ a) (hnd : 1 ≤ a.nd) (k : Nat) (hk1 : 1 ≤ k) (hk : k ≤ 60) :
+    ∃ b, leftShift a k = some b ∧ ∃ δ : ℚ, 0 ≤ δ ∧ δ < 10 ^ (b.dp - 800) ∧ aval a * 2 ^ k = aval b + δ := by
+  obtain ⟨D2, s, hc, hcd, hcv, hcl, hD1, hD2a, hD2b, hL1⟩ := cheat_facts k hk1 hk
+  have hlead : 1 ≤ dig a.d 0 := hnz hnd
+  have hP1 : 10 ^ (a.nd - 1) ≤ val a.d a.nd := val_ge_of_lead a.d hlead a.nd hnd
+  have hP2 : val a.d a.nd < 10 ^ a.nd := val_lt a.d a.nd h.digits
+  generalize hcs : s.toUTF8.data = cs at hcd hcv hcl hL1
+  -- the comparison with the cutoff
+  have hbsz : (a.d.extract 0 a.nd).size = a.nd := by simp [h.size]; exact h.nd
+  have hbok : DigitsOK (a.d.extract 0 a.nd) (a.d.extract 0 a.nd).size := by
+    rw [hbsz]; intro i hi
+    rw [extract_get a.d a.nd i (by rw [h.size]; exact h.nd) hi]; exact h.digits i hi
+  have hless := prefixLess_spec (a.d.extract 0 a.nd) cs hbok hcd
+  rw [hbsz] at hless
+  have hless' : (prefixIsLessThan (a.d.extract 0 a.nd) cs = true) ↔
+      (if cs.size ≤ a.nd then val a.d a.nd / 10 ^ (a.nd - cs.size) < 5 ^ k else val a.d a.nd ≤ 5 ^ k / 10 ^ (cs.size - a.nd)) := by
+    rw [hless]
+    by_cases hle : cs.size ≤ a.nd
+    · rw [if_pos hle, Nat.min_eq_right hle, val_extract a.d a.nd (by rw [h.size]; exact h.nd) cs.size hle,
+        val_prefix a.d a.nd cs.size hle h.digits, hcv]
+      constructor
+      · rintro (h1 | ⟨_, h2⟩)
+        · exact h1
+        · omega
+      · intro h1; exact .inl h1
+    · rw [if_neg hle, Nat.min_eq_left (by omega), val_extract a.d a.nd (by rw [h.size]; exact h.nd) a.nd (Nat.le_refl _),
+        val_prefix cs cs.size a.nd (by omega) hcd, hcv]
+      constructor
+      · rintro (h1 | ⟨h1, _⟩) <;> omega
+      · intro h1
+        rcases Nat.lt_or_eq_of_le h1 with h2 | h2
+        · exact .inl h2
+        · exact .inr ⟨h2, by omega⟩
+  -- the predicted width
+  obtain ⟨hT1, hT2⟩ := shift_digits (val a.d a.nd) a.nd k D2 cs.size hnd hP1 hP2 hD1 hD2a hD2b hcl hL1
+    (prefixIsLessThan (a.d.extract 0 a.nd) cs = true) hless'
+  generalize hdelta : D2 - (if prefixIsLessThan (a.d.extract 0 a.nd) cs = true then 1 else 0) = delta at hT1 hT2
+  have hD19 : D2 ≤ 19 := by
+    by_contra hcon
+    have h1 : (10 : ℕ) ^ 19 ≤ 10 ^ (D2 - 1) := Nat.pow_le_pow_right (by norm_num) (by omega)
+    have h2 : (2 : ℕ) ^ k ≤ 2 ^ 60 := Nat.pow_le_pow_right (by norm_num) hk
+    have h3 : (2 : ℕ) ^ 60 < 10 ^ 19 := by norm_num
+    omega
+  have hdl : delta ≤ 19 := by omega
+  -- unfold the code
+  have hdigits : a.digits = a.d.extract 0 a.nd := rfl
+  simp only [leftShift, hc, hdigits, hcs]
+  have hwidth : ((a.nd : ℤ) + ((D2 : ℤ) - (if prefixIsLessThan (a.d.extract 0 a.nd) cs = true then 1 else 0))) = ((delta + a.nd : ℕ) : ℤ) := by
+    by_cases hl : prefixIsLessThan (a.d.extract 0 a.nd) cs = true
+    · have hd : delta = D2 - 1 := by rw [← hdelta, if_pos hl]
+      rw [if_pos hl]; omega
+    · have hd : delta = D2 := by rw [← hdelta, if_neg hl]; omega
+      rw [if_neg hl]; omega
+  have hdz : ((D2 : ℤ) - (if prefixIsLessThan (a.d.extract 0 a.nd) cs = true then 1 else 0)) = (delta : ℤ) := by omega
+  rw [hwidth]
+  -- the first loop
+  obtain ⟨n1, d1, tr1, t1, hm, hsz1, hn1, hok1, ht1, hval1⟩ := lsMain_approx k a.nd delta a.d h.digits a.nd 0 0 a.d a.trunc (Nat.le_refl _)
+    h.size (fun _ _ => rfl) (by positivity) (fun i h1 h2 => by omega) (by positivity) (by
+      have : min (a.nd + delta) 800 - (delta + a.nd) = 0 := by omega
+      rw [this]; simp [seg])
+  rw [hm]
+  simp only []
+  obtain ⟨c1, c2⟩ := lsMain_carry k a.nd delta a.d h.digits a.nd 0 a.d a.trunc _ n1 d1 tr1 (Nat.le_refl _) h.size (fun _ _ => rfl) hm
+  simp only [Nat.add_zero] at c1 c2
+  have hn1hi : n1 < 10 ^ delta := by
+    have : n1 * 10 ^ a.nd < 10 ^ delta * 10 ^ a.nd := by
+      rw [← Nat.pow_add, Nat.add_comm delta a.nd]; omega
+    exact Nat.lt_of_mul_lt_mul_right this
+  have hn1lo : 1 ≤ delta → 10 ^ (delta - 1) ≤ n1 := by
+    intro hd1
+    have h1 : 10 ^ (delta - 1) * 10 ^ a.nd < (n1 + 1) * 10 ^ a.nd := by
+      rw [← Nat.pow_add]
+      have : delta - 1 + a.nd = a.nd + delta - 1 := by omega
+      rw [this]; omega
+    have := Nat.lt_of_mul_lt_mul_right h1
+    omega
+  -- the second loop
+  obtain ⟨d2, tr2, t2, he, hsz2, hok2, ht2, hval2⟩ := lsExtra_approx (a.nd + delta) 64 delta n1 a.nd t1 d1 tr1 (by omega) (by omega) hsz1
+    hn1hi hn1lo hok1 ht1
+  rw [he]
+  simp only []
+  have hnd' : (if ((delta + a.nd : ℕ) : ℤ) ≥ (d2.size : ℤ) then d2.size
+      else (((delta + a.nd : ℕ) : ℤ)).toNat) = min (a.nd + delta) 800 := by
+    rw [hsz2]
+    split <;> omega
+  rw [hnd', hdz]
+  have hwf : WF { a with d := d2, nd := min (a.nd + delta) 800, dp := a.dp + (delta : ℤ), trunc := tr2 } :=
+    ⟨hsz2, by show min (a.nd + delta) 800 ≤ 800; omega, fun i hi => hok2 i (by omega) hi⟩
+  have hnz2 : NZ { a with d := d2, nd := min (a.nd + delta) 800, dp := a.dp + (delta : ℤ), trunc := tr2 } := by
+    intro _
+    show 1 ≤ dig d2 0
+    by_cases hd0 : delta = 0
+    · subst hd0
+      have hn0 : n1 = 0 := by simpa using hn1hi
+      subst hn0
+      rw [lsExtra_zero] at he
+      injection he with he; injection he with he _
+      rw [← he]
+      have := lsMain_lead k 0 hk1 a.d hlead a.nd 0 a.d a.trunc _ d1 tr1 hnd h.size (by norm_num) (fun _ _ => rfl) hm
+      exact this
+    · exact lsExtra_lead 64 delta n1 d1 tr1 d2 tr2 (by omega) (by omega) hsz1 (by omega) hn1hi (hn1lo (by omega)) he
+  obtain ⟨u1, u2, u3, u4⟩ := trim_spec _ hwf
+  have htpos := trim_pos _ hnz2 (by show 1 ≤ min (a.nd + delta) 800; omega)
+  refine ⟨_, rfl, ?_⟩
+  have hdpb : ({ a with d := d2, nd := min (a.nd + delta) 800, dp := a.dp + (delta : ℤ), trunc := tr2 } : Decimal).trim.dp = a.dp + (delta : ℤ) := by
+    simp only [Decimal.trim]
+    have : (trimLoop d2 (min (a.nd + delta) 800) == 0) = false := by
+      have : ({ a with d := d2, nd := min (a.nd + delta) 800, dp := a.dp + (delta : ℤ), trunc := tr2 } : Decimal).trim.nd =
+          trimLoop d2 (min (a.nd + delta) 800) := rfl
+      rw [this] at htpos
+      simp; omega
+    rw [this]; rfl
+  rw [hdpb, u2]
+  -- the value
+  have hT : seg d2 0 (min (a.nd + delta) 800) * 10 ^ (a.nd + delta - min (a.nd + delta) 800) + t2 = val a.d a.nd * 2 ^ k := by
+    rw [hval2, hval1]
+  rw [seg_zero] at hT
+  simp only [aval]
+  generalize hX : a.nd + delta - min (a.nd + delta) 800 = X at hT ht2
+  have hTq : (val d2 (min (a.nd + delta) 800) : ℚ) * 10 ^ X + t2 = (val a.d a.nd : ℚ) * 2 ^ k := by exact_mod_cast hT
+  have hexp : a.dp + (delta : ℤ) - ((min (a.nd + delta) 800 : ℕ) : ℤ) = (a.dp - (a.nd : ℤ)) + (X : ℤ) := by omega
+  refine ⟨(t2 : ℚ) * 10 ^ (a.dp - (a.nd : ℤ)), by positivity, ?_, ?_⟩
+  · have htq : (t2 : ℚ) < 10 ^ (X : ℤ) := by rw [zpow_natCast]; exact_mod_cast ht2
+    by_cases hX0 : X = 0
+    · subst hX0
+      have : t2 = 0 := by simpa using ht2
+      subst this
+      simp only [Nat.cast_zero, zero_mul]
+      positivity
+    · have hC : min (a.nd + delta) 800 = 800 := by omega
+      calc (t2 : ℚ) * 10 ^ (a.dp - (a.nd : ℤ)) < 10 ^ (X : ℤ) * 10 ^ (a.dp - (a.nd : ℤ)) := mul_lt_mul_of_pos_right htq (by positivity)
+        _ = 10 ^ (a.dp + (delta : ℤ) - 800) := by
+            rw [← zpow_add₀ (by norm_num)]; congr 1; omega
+  · rw [hexp, zpow_add₀ (by norm_num), zpow_natCast]
+    have : (val a.d a.nd : ℚ) * 10 ^ (a.dp - (a.nd : ℤ)) * 2 ^ k = ((val a.d a.nd : ℚ) * 2 ^ k) * 10 ^ (a.dp - (a.nd : ℤ)) := by ring
+    rw [this, ← hTq]; ring
+
 end RJson.Dec
